@@ -54,35 +54,39 @@ Arrs(S) == UNION {Perms(T) : T \in (SUBSET S) \ {{}}}
 
 SliceArgs == {<<n, k>> : n \in Ns, k \in Ks}
 SliceSeqs == UNION {[1..m -> SliceArgs] : m \in 1..3}
-SliceConfigs == {[verb |-> "slices", size |-> z, args |-> a, alias |-> al] : z \in Sizes, a \in SliceSeqs, al \in BOOLEAN}
-UnionConfigs == {[verb |-> "union", l |-> l, r |-> r, distinct |-> d] : l \in Arrs(SeqSet(UCols)), r \in Arrs(SeqSet(UCols)), d \in BOOLEAN}
+SliceConfigs(lazy) == {[verb |-> "slices", size |-> z, args |-> a, alias |-> al] : z \in Sizes, a \in SliceSeqs, al \in BOOLEAN}
+UnionConfigs(lazy) == {[verb |-> "union", l |-> l, r |-> r, distinct |-> d] : l \in Arrs(SeqSet(UCols)), r \in Arrs(SeqSet(UCols)), d \in BOOLEAN}
 
 KeySeqs == UNION {[1..m -> JKeys] : m \in 0..JMaxLen}
 (* named: FALSE = the tables have no name (the right columns then get the default suffix "_right") *)
 (* form: how the conjunction of "eqle" is written - `p & q`, the list [p, q], pdt.all(p, q), and the same predicate with the  *)
 (* redundant middle conjunct l.k <= r.k as `p & m & q` / pdt.all(p, m, q) (every conjunct must take part on every backend)    *)
 JoinCfg(l, r, h, o, nm, fm) == [verb |-> "joinrows", l |-> l, r |-> r, how |-> h, on |-> o, named |-> nm, form |-> fm]
+(* The configuration sets take a dummy parameter: TLC evaluates parameterless constant definitions when it starts, for
+   every run - also for the families that are not selected - which cost minutes once the join family had grown.             *)
 (* (only the combinations JoinValid keeps are built: the full product exceeds TLC's set size limit for four keys) *)
-JoinConfigs ==
+JoinConfigs(lazy) ==
     UNION {UNION {UNION {
-        {JoinCfg(l, r, h, o, TRUE, "and") : o \in {"eq", "str", "le", "eqle", "eqleft", "eqright", "eqlit", "rlit"}}
+        {JoinCfg(l, r, h, o, TRUE, "and") : o \in {"eq", "str", "le", "eqle", "eqleft", "eqright", "eqlit", "rlit", "cross"}}
         \cup {JoinCfg(l, r, h, "eqle", TRUE, fm) : fm \in {"list", "all", "and3", "all3"}}
+        \cup {JoinCfg(l, r, h, o, TRUE, "rfloat") : o \in {"eq", "eqle"}}          \* the right key column is Float64, the left one Int64: same rows
         \cup {JoinCfg(l, r, h, o, FALSE, "and") : o \in {"le", "eqle"}}
         : h \in {"inner", "left", "full"}} : r \in KeySeqs} : l \in KeySeqs}
 JoinValid(c) == /\ (c.on \in {"le", "eqle", "eqleft", "eqright"} => c.how # "full")
                 /\ (c.on \in {"eqleft", "eqright", "eqlit", "rlit"} => c.named)
-                /\ (c.form # "and" => c.on = "eqle" /\ c.named)
+                /\ (c.on = "cross" => c.how = "inner")                 \* cross_join(r): every pair, none if a side is empty
+                /\ (c.form \notin {"and", "rfloat"} => c.on = "eqle" /\ c.named)
                 /\ (~c.named => (c.on \in {"eqle", "le"} /\ Len(c.l) + Len(c.r) >= 3))      \* the unnamed variant only where it takes another path          \* a full join takes equality predicates only (documented ValueError otherwise)
 
 JoinExpected(c) ==      \* set of <<lid, rid>>, 0 = padded with nulls
-    LET match(i, j) == (c.on = "rlit" \/ c.l[i] # 0) /\ c.r[j] # 0 /\ (CASE c.on = "le" -> c.l[i] <= c.r[j]
+    LET match(i, j) == c.on = "cross" \/ ((c.on = "rlit" \/ c.l[i] # 0) /\ c.r[j] # 0 /\ (CASE c.on = "le" -> c.l[i] <= c.r[j]
                                                           [] c.on = "eqle" -> c.l[i] = c.r[j] /\ i <= j        \* (l.k == r.k) & (lid <= rid)
                                                           \* an equality that reads one input only is a predicate like any other, not a join key
                                                           [] c.on = "eqleft" -> c.l[i] = c.r[j] /\ i = c.l[i]   \* [l.k == r.k, l.lid == l.k]
                                                           [] c.on = "eqright" -> c.l[i] = c.r[j] /\ j = c.r[j]  \* [l.k == r.k, r.rid == r.k]
                                                           [] c.on = "eqlit" -> c.l[i] = c.r[j] /\ c.r[j] = 2   \* [pdt.lit(2) == r.k, l.k == r.k] (a constant first)
                                                           [] c.on = "rlit" -> c.r[j] = 2                        \* r.k == 2 alone: every left row pairs with the right rows of key 2
-                                                          [] OTHER -> c.l[i] = c.r[j])
+                                                          [] OTHER -> c.l[i] = c.r[j]))
         inner == {<<i, j>> : i \in DOMAIN c.l, j \in DOMAIN c.r} \cap {p \in (DOMAIN c.l) \X (DOMAIN c.r) : match(p[1], p[2])}
         lpad == {<<i, 0>> : i \in {i \in DOMAIN c.l : \A j \in DOMAIN c.r : ~match(i, j)}}
         rpad == {<<0, j>> : j \in {j \in DOMAIN c.r : \A i \in DOMAIN c.l : ~match(i, j)}}
@@ -95,7 +99,7 @@ JudgeJoin(c, out, err) ==
          ELSE IF {out[i] : i \in DOMAIN out} = e THEN "ok" ELSE "rows"
 
 WinKeySeqs == UNION {[1..m -> {99, 1, 2}] : m \in 0..WMaxLen}        \* 99 stands for NULL
-WinConfigs == {[verb |-> "win", keys |-> ks, fn |-> f, desc |-> d, nl |-> nl, part |-> pt, vnull |-> vn] :
+WinConfigs(lazy) == {[verb |-> "win", keys |-> ks, fn |-> f, desc |-> d, nl |-> nl, part |-> pt, vnull |-> vn] :
                   ks \in WinKeySeqs, f \in {"row_number", "rank", "dense_rank", "shift1", "shiftm1", "cum_sum"},
                   d \in BOOLEAN, nl \in {"first", "last"}, pt \in BOOLEAN, vn \in BOOLEAN}
 
@@ -135,7 +139,7 @@ ArrRows == {<<a, b>> : a \in {99, 1, 2}, b \in {99, 1, 2}}
 ArrSeqs == UNION {[1..m -> ArrRows] : m \in 0..AMaxLen}
 (* ck: a constant column (mutate(k = 2); "lit": the literal pdt.lit(2) itself) is the FIRST ordering key - it orders nothing (and *)
 (* must not be read as a column position)                                                                                        *)
-ArrConfigs == {[verb |-> "arrange", rows |-> rs, d1 |-> d1, n1 |-> n1, d2 |-> d2, n2 |-> n2, take |-> tk, ck |-> ck] :
+ArrConfigs(lazy) == {[verb |-> "arrange", rows |-> rs, d1 |-> d1, n1 |-> n1, d2 |-> d2, n2 |-> n2, take |-> tk, ck |-> ck] :
                   rs \in ArrSeqs, d1 \in BOOLEAN, n1 \in {"first", "last"}, d2 \in BOOLEAN, n2 \in {"first", "last"}, tk \in {0, 2}, ck \in {"no", "col", "lit"}}
 
 JudgeArrange(c, out, err) ==
@@ -162,7 +166,7 @@ JudgeArrange(c, out, err) ==
 (* right-hand side of the SAME call reads.  Expected (C02): every right-hand side sees the table as it was before the call;     *)
 (* replaced columns are dropped, the new ones appended in keyword order.                                                        *)
 MutExprs == {"a", "b", "ab", "z"}
-MutConfigs == UNION {{[verb |-> "mutate", names |-> ns, exprs |-> es] : es \in [1..Len(ns) -> MutExprs]} :
+MutConfigs(lazy) == UNION {{[verb |-> "mutate", names |-> ns, exprs |-> es] : es \in [1..Len(ns) -> MutExprs]} :
                         ns \in {p \in Arrs({"a", "b", "c"}) : Len(p) >= 2}}
 MutVal(x, r) == CASE x = "a" -> r [] x = "b" -> 10 * r [] x = "ab" -> 11 * r [] x = "z" -> 0
 JudgeMutate(c, names, rows, err) ==
@@ -177,7 +181,7 @@ AggRows == {<<k, v>> : k \in {99, 1, 2}, v \in {99, -1, 2}}
 AggSeqs == UNION {[1..m -> AggRows] : m \in 0..AMaxLen}
 (* flt: the filter= argument - none, one condition (v > 0), a list of conditions ([v > -5, v < 2]); a row counts iff every *)
 (* condition is TRUE for it (a null condition is not true)                                                                *)
-AggConfigs == {[verb |-> "agg", rows |-> rs, op |-> o, mode |-> md, flt |-> fl] :
+AggConfigs(lazy) == {[verb |-> "agg", rows |-> rs, op |-> o, mode |-> md, flt |-> fl] :
                   rs \in AggSeqs, o \in {"sum", "min", "max", "mean", "count", "len"}, md \in {"grouped", "ungrouped", "window", "constgroup"},
                   fl \in {"none", "vpos", "list"}}
 AggKeep(c, I) == CASE c.flt = "none" -> I
@@ -252,13 +256,13 @@ JudgeUnion(c, names, rows, err) ==
 
 Recs == IF Mode = "check" THEN ndJsonDeserialize(IOEnv.VERIF_ARGSPACE) ELSE <<>>
 
-ASSUME Mode = "gen" => /\ ("slices" \in GenVerbs => \A c \in SliceConfigs : PrintT(ToJson(c)))
-                       /\ ("union" \in GenVerbs => \A c \in UnionConfigs : PrintT(ToJson(c)))
-                       /\ ("joinrows" \in GenVerbs => \A c \in JoinConfigs : JoinValid(c) => PrintT(ToJson(c)))
-                       /\ ("win" \in GenVerbs => \A c \in WinConfigs : PrintT(ToJson(c)))
-                       /\ ("agg" \in GenVerbs => \A c \in AggConfigs : PrintT(ToJson(c)))
-                       /\ ("arrange" \in GenVerbs => \A c \in ArrConfigs : PrintT(ToJson(c)))
-                       /\ ("mutate" \in GenVerbs => \A c \in MutConfigs : PrintT(ToJson(c)))
+ASSUME Mode = "gen" => /\ ("slices" \in GenVerbs => \A c \in SliceConfigs(0) : PrintT(ToJson(c)))
+                       /\ ("union" \in GenVerbs => \A c \in UnionConfigs(0) : PrintT(ToJson(c)))
+                       /\ ("joinrows" \in GenVerbs => \A c \in JoinConfigs(0) : JoinValid(c) => PrintT(ToJson(c)))
+                       /\ ("win" \in GenVerbs => \A c \in WinConfigs(0) : PrintT(ToJson(c)))
+                       /\ ("agg" \in GenVerbs => \A c \in AggConfigs(0) : PrintT(ToJson(c)))
+                       /\ ("arrange" \in GenVerbs => \A c \in ArrConfigs(0) : PrintT(ToJson(c)))
+                       /\ ("mutate" \in GenVerbs => \A c \in MutConfigs(0) : PrintT(ToJson(c)))
 ASSUME Mode = "check" =>
     \A i \in DOMAIN Recs :
         LET r == Recs[i] IN
